@@ -91,6 +91,7 @@ class Ctx:
         self.axiom_notes = []     # human-readable
         self.atoms = {}           # name -> z3 var
         self.den_terms = {}       # key -> z3 term (denominator factors; "!= 0" side conditions)
+        self.den_pcs = {}         # key -> None (registered outside an exploration: unconditional) or {pc signature: [pc conjuncts]} (paths that divide by the term)
         self.pc = []              # path condition (z3 bools) of the current path
         self.explorer = None
         self.canon_cache = {}
@@ -112,8 +113,29 @@ class Ctx:
         if note:
             self.axiom_notes.append(note)
 
+    def reg_den(self, key, term):
+        """a denominator factor met while dividing. `term != 0` is a fact about the PATH that divides (the real code would otherwise divide by zero there), not about every path of the
+        job: registered with the current path condition, so that it cannot make a branch on which the same symbol is zero (y == 0 ...) vacuously true"""
+        self.den_terms[key] = term
+        pc = list(self.pc) if self.explorer is not None else []
+        if not pc:
+            self.den_pcs[key] = None
+            return
+        cur = self.den_pcs.get(key, {})
+        if cur is None:
+            return
+        cur[tuple(c.get_id() for c in pc)] = pc
+        self.den_pcs[key] = cur
+
     def den_conds(self):
-        return [t != 0 for t in self.den_terms.values()]
+        out = []
+        for key, t in self.den_terms.items():
+            pcs = self.den_pcs.get(key)
+            if pcs is None:
+                out.append(t != 0)
+            else:
+                out.append(z3.Implies(z3.Or(*[z3.And(*pc) for pc in pcs.values()]), t != 0))
+        return out
 
 
 CTX = Ctx()
@@ -524,14 +546,14 @@ class Q:
             den = {}
             for key, term, m in facs:
                 den[key] = (term, m)
-                CTX.den_terms[key] = term
+                CTX.reg_den(key, term)
             return Q(zmul(1 / c, D), ZERO, den)
         n = zadd(zmul(a.re, a.re), zmul(a.im, a.im))
         c, facs = factor_den(n)
         den = {}
         for key, term, m in facs:
             den[key] = (term, m)
-            CTX.den_terms[key] = term
+            CTX.reg_den(key, term)
         return Q(zmul(1 / c, zmul(a.re, D)), zmul(-1 / c, zmul(a.im, D)), den)
 
     def __truediv__(a, b):
